@@ -26,6 +26,9 @@ import traceback
 VERIF = pathlib.Path(__file__).resolve().parents[1]
 SPEC = VERIF / "spec"
 REPO = pathlib.Path(os.environ.get("NANITE_REPO", "/repo"))
+# (runs against seeded copies write their evidence and replays elsewhere)
+OUTDIR = pathlib.Path(os.environ.get("VERIF_OUTDIR", "") or
+                      pathlib.Path(__file__).resolve().parents[1])
 TLA_CP = ("/opt/veriftools/tla/tla2tools.jar:"
           "/opt/veriftools/tla/CommunityModules-deps.jar")
 NCPU = os.cpu_count() or 4
@@ -269,8 +272,8 @@ class Ctx:
                 print(f"KNOWN-FINDING: property={self.pid} {k['what']} "
                       f"[{k['id']}; {len(self.known_hit[k['id']])} case(s)]")
         rc = 0
-        replay_dir = VERIF / "replays"
-        replay_dir.mkdir(exist_ok=True)
+        replay_dir = OUTDIR / "replays"
+        replay_dir.mkdir(exist_ok=True, parents=True)
         for n, (fp, what, replay) in enumerate(unknown[:20]):
             path = replay_dir / f"{self.pid}-{n}.json"
             path.write_text(json.dumps(jsonable({
@@ -312,8 +315,8 @@ class Ctx:
             "wall_s": round(time.time() - self.t0, 2),
             "violations": nviol,
         }
-        out = VERIF / "evidence"
-        out.mkdir(exist_ok=True)
+        out = OUTDIR / "evidence"
+        out.mkdir(exist_ok=True, parents=True)
         (out / f"{self.pid}.json").write_text(json.dumps(ev, indent=1))
 
 
